@@ -22,6 +22,12 @@ About `execute` (packaging/target.py) and every pipeline built from it:
   `publish_leaves_output_untouched`            `build` and `publish` never add or remove anything below the package output directory
 * `packageOp_fault_spec`                       the statement of C20 for the whole `package` operation of every target, every platform /
                                              architecture list, every k and both fault kinds
+* `first_unhandled_fault_ends`,
+  `packageOp_faults_spec`                      the same for *sets* of faults (any oracle): the first failing invocation that is not a
+                                             handled probe ends the operation with 130
+* `faults_reported_or_recovered`,
+  `probe_and_fallback_fail_reported`           a failing invocation is either reported (130) or it is a handled probe whose fallback — the
+                                             next invocation, same tool — succeeded; probe and fallback both failing is always reported
 -/
 namespace Pydjinni.Sys.Pkg
 
@@ -870,6 +876,251 @@ theorem publish_leaves_output_untouched (c : Cfg) (orc : Oracle) (w : World) (q 
     q ∈ (run orc (publishSteps c) w).2.files ↔ q ∈ w.files :=
   run_away orc _ w (publishSteps_away c w.cwd hlocal) hq
 
+theorem execute_dirs (orc : Oracle) (tool : String) (sig : List String) (wd : Option P) (eff : List Eff) (handled : Bool) (w : World) :
+    (execute orc tool sig wd eff handled w).2.dirs = w.dirs := by
+  simp only [execute]
+  split
+  · rfl
+  · rename_i w1 hcd
+    obtain ⟨_, hd, _, _⟩ := chdirTo_eq hcd
+    split <;> exact hd
+
+/-! ### sets of faults: a handled probe and its fallback -/
+
+/-- every handled (caught) failing probe in the log is directly followed by its fallback: an invocation of the same tool
+    whose failure is *not* caught -/
+def ProbeFollowed (calls : List Call) : Prop :=
+  ∀ i (h : i < calls.length), calls[i].handled = true →
+    ∃ h' : i + 1 < calls.length, calls[i + 1].handled = false ∧ calls[i + 1].tool = calls[i].tool
+
+theorem ProbeFollowed_append_unhandled {calls : List Call} {c : Call} (h : ProbeFollowed calls) (hc : c.handled = false) :
+    ProbeFollowed (calls ++ [c]) := by
+  intro i hi hh
+  by_cases hlt : i < calls.length
+  · rw [List.getElem_append_left hlt] at hh
+    obtain ⟨h', h1, h2⟩ := h i hlt hh
+    refine ⟨by simp; omega, ?_⟩
+    rw [List.getElem_append_left h', List.getElem_append_left hlt]
+    exact ⟨h1, h2⟩
+  · have : i = calls.length := by simp at hi; omega
+    subst this
+    simp [hc] at hh
+
+theorem ProbeFollowed_append_pair {calls : List Call} {c1 c2 : Call} (h : ProbeFollowed calls) (h2 : c2.handled = false)
+    (ht : c2.tool = c1.tool) : ProbeFollowed (calls ++ [c1] ++ [c2]) := by
+  intro i hi hh
+  by_cases hlt : i < calls.length
+  · have hlt1 : i < (calls ++ [c1]).length := by simp; omega
+    rw [List.getElem_append_left hlt1, List.getElem_append_left hlt] at hh
+    obtain ⟨h', ha, hb⟩ := h i hlt hh
+    have h'1 : i + 1 < (calls ++ [c1]).length := by simp; omega
+    refine ⟨by simp; omega, ?_⟩
+    rw [List.getElem_append_left h'1, List.getElem_append_left h', List.getElem_append_left hlt1, List.getElem_append_left hlt]
+    exact ⟨ha, hb⟩
+  · by_cases heq : i = calls.length
+    · subst heq
+      refine ⟨by simp, ?_⟩
+      have e1 : (calls ++ [c1] ++ [c2])[calls.length + 1]'(by simp) = c2 := by
+        rw [List.getElem_append_right (by simp)]; simp
+      have e0 : (calls ++ [c1] ++ [c2])[calls.length]'(by simp) = c1 := by
+        rw [List.getElem_append_left (by simp)]; simp
+      rw [e1, e0]
+      exact ⟨h2, ht⟩
+    · have : i = calls.length + 1 := by simp at hi; omega
+      subst this
+      have e1 : (calls ++ [c1] ++ [c2])[calls.length + 1]'(by simp) = c2 := by
+        rw [List.getElem_append_right (by simp)]; simp
+      rw [e1, h2] at hh
+      cases hh
+
+/-- `chdir` into the working directory of a command depends on the directory tree and the current directory only -/
+theorem chdirTo_congr (w w' : World) (wd : Option P) (hc : w'.cwd = w.cwd) (hf : w'.files = w.files) (hd : w'.dirs = w.dirs) :
+    (chdirTo w' wd).isSome = (chdirTo w wd).isSome := by
+  cases wd with
+  | none => simp [chdirTo]
+  | some d =>
+    have key : ∀ (c : Bool) (a b : World),
+        (if c = true then some a else none : Option World).isSome = (if c = true then some b else none : Option World).isSome := by
+      intro c a b; cases c <;> rfl
+    simp only [chdirTo, World.dirExists, hc, hf, hd]
+    exact key _ _ _
+
+/-- what `try: execute(tool, sig1) except ExternalCommandException: execute(tool, sig2)` does to the log -/
+theorem execOr_log (orc : Oracle) (tool : String) (s1 s2 : List String) (wd : Option P) (w : World) :
+    ((runPrim orc w (.execOr tool s1 s2 wd)).1 = .err (.oserror "chdir") ∧ (runPrim orc w (.execOr tool s1 s2 wd)).2.calls = w.calls)
+    ∨ (∃ c1 : Call, (runPrim orc w (.execOr tool s1 s2 wd)).2.calls = w.calls ++ [c1] ∧ c1.result = .ok ∧ c1.handled = false
+        ∧ (runPrim orc w (.execOr tool s1 s2 wd)).1 = .ok)
+    ∨ (∃ c1 c2 : Call, (runPrim orc w (.execOr tool s1 s2 wd)).2.calls = w.calls ++ [c1] ++ [c2]
+        ∧ c1.handled = true ∧ c1.result ≠ .ok ∧ c1.tool = tool ∧ c2.tool = tool ∧ c2.handled = false
+        ∧ c2.result = orc (w.calls.length + 1) tool
+        ∧ ((c2.result = .ok ∧ (runPrim orc w (.execOr tool s1 s2 wd)).1 = .ok)
+           ∨ (c2.result ≠ .ok ∧ (runPrim orc w (.execOr tool s1 s2 wd)).1 = .err .external))) := by
+  simp only [runPrim]
+  rcases execute_log orc tool s1 wd [] true w with ⟨hr, hc⟩ | ⟨c1, hc, ht1, _, hh, hcase⟩
+  · left
+    split
+    · rename_i w1 heq; rw [heq] at hr; cases hr
+    · exact ⟨hr, hc⟩
+  · rcases hcase with ⟨hok, hr⟩ | ⟨hbad, hr⟩
+    · right; left
+      split
+      · rename_i w1 heq; rw [heq] at hr; cases hr
+      · exact ⟨c1, hc, hok, by simp [hh, hok], hr⟩
+    · right; right
+      split
+      · rename_i w1 heq
+        have hc1 : w1.calls = w.calls ++ [c1] := by rw [heq] at hc; exact hc
+        -- the directory of the fallback is the directory of the probe: `chdir` succeeds again
+        have hcwd : w1.cwd = w.cwd := by have := execute_restores_cwd orc tool s1 wd [] true w; rw [heq] at this; exact this
+        have hfiles : w1.files = w.files := by
+          have := execute_fail_files orc tool s1 wd [] true w (by rw [heq]; simp); rw [heq] at this; exact this
+        have hdirs : w1.dirs = w.dirs := by
+          have := execute_dirs orc tool s1 wd [] true w; rw [heq] at this; exact this
+        have hsome : (chdirTo w wd).isSome = true := by
+          cases hcd : chdirTo w wd with
+          | none => simp [execute, hcd] at heq
+          | some _ => rfl
+        have hsome1 : (chdirTo w1 wd).isSome = true := by rw [chdirTo_congr w w1 wd hcwd hfiles hdirs]; exact hsome
+        rcases execute_log orc tool s2 wd [] false w1 with ⟨hr2, _⟩ | ⟨c2, hc2, ht2, hres2, hh2, hcase2⟩
+        · exfalso
+          cases hcd : chdirTo w1 wd with
+          | none => rw [hcd] at hsome1; cases hsome1
+          | some w2 =>
+            simp only [execute, hcd] at hr2
+            split at hr2 <;> cases hr2
+        · refine ⟨c1, c2, by rw [hc2, hc1], by simp [hh, hbad], hbad, ht1, ht2, by simp [hh2], ?_, hcase2⟩
+          rw [hres2, hc1]; simp
+      · rename_i hne
+        exact (hne _ (Prod.ext hr rfl)).elim
+
+theorem runPrim_probeFollowed (orc : Oracle) (w : World) (p : Prim) (hw : ProbeFollowed w.calls) :
+    ProbeFollowed (runPrim orc w p).2.calls := by
+  cases p with
+  | exec tool sig wd eff =>
+    rcases execute_log orc tool sig wd eff false w with ⟨_, hc⟩ | ⟨c, hc, _, _, hh, _⟩
+    · simp only [runPrim]; rw [hc]; exact hw
+    · simp only [runPrim]; rw [hc]; exact ProbeFollowed_append_unhandled hw (by simp [hh])
+  | execOr tool s1 s2 wd =>
+    rcases execOr_log orc tool s1 s2 wd w with ⟨_, hc⟩ | ⟨c1, hc, _, hh, _⟩ | ⟨c1, c2, hc, _, _, ht1, ht2, hh2, _, _⟩
+    · rw [hc]; exact hw
+    · rw [hc]; exact ProbeFollowed_append_unhandled hw hh
+    · rw [hc]; exact ProbeFollowed_append_pair hw hh2 (by rw [ht1, ht2])
+  | prepare d c => rw [(runPrim_other orc w (.prepare d c) (by simp) (by simp)).1]; exact hw
+  | copyTree srcs dst c => rw [(runPrim_other orc w (.copyTree srcs dst c) (by simp) (by simp)).1]; exact hw
+  | copyFile s d => rw [(runPrim_other orc w (.copyFile s d) (by simp) (by simp)).1]; exact hw
+  | write p => rw [(runPrim_other orc w (.write p) (by simp) (by simp)).1]; exact hw
+  | need site p => rw [(runPrim_other orc w (.need site p) (by simp) (by simp)).1]; exact hw
+  | unlink p => rw [(runPrim_other orc w (.unlink p) (by simp) (by simp)).1]; exact hw
+  | setFlagFile n p => rw [(runPrim_other orc w (.setFlagFile n p) (by simp) (by simp)).1]; exact hw
+  | setFlagAnyDir n ps => rw [(runPrim_other orc w (.setFlagAnyDir n ps) (by simp) (by simp)).1]; exact hw
+
+theorem run_probeFollowed (orc : Oracle) (steps : List Step) (w : World) (hw : ProbeFollowed w.calls) :
+    ProbeFollowed (run orc steps w).2.calls := by
+  induction steps generalizing w with
+  | nil => exact hw
+  | cons s ss ih =>
+    simp only [run]
+    have hs : ProbeFollowed (runStep orc w s).2.calls := by
+      unfold runStep; split
+      · exact runPrim_probeFollowed orc w s.prim hw
+      · exact hw
+    split
+    · rename_i w1 heq
+      rw [heq] at hs
+      exact ih w1 hs
+    · exact hs
+
+/-- **Every set of faults.** Run any pipeline from an empty log under *any* oracle (any number of failing invocations, of
+    either kind). For every logged invocation `i` whose verdict is a failure: either the operation ended with the
+    external-command error (130), the working directory restored and the failing unhandled invocation the last one logged — or
+    invocation `i` is a probe whose failure its caller handles, and the very next invocation is its fallback (same tool) and
+    *succeeded*. In particular a failing fallback is never swallowed. -/
+theorem faults_reported_or_recovered (orc : Oracle) (steps : List Step) (w : World) (hw : w.calls = [])
+    (i : Nat) (hi : i < (run orc steps w).2.calls.length)
+    (hfail : orc i ((run orc steps w).2.calls[i]).tool ≠ .ok) :
+    ((run orc steps w).1 = .err .external ∧ (run orc steps w).2.cwd = w.cwd ∧ LastFailed (run orc steps w).2.calls)
+    ∨ (((run orc steps w).2.calls[i]).handled = true
+        ∧ ∃ h : i + 1 < (run orc steps w).2.calls.length,
+            ((run orc steps w).2.calls[i + 1]).result = .ok
+            ∧ ((run orc steps w).2.calls[i + 1]).tool = ((run orc steps w).2.calls[i]).tool) := by
+  have hfa := run_faithful orc steps w (by rw [hw]; intro i hi; simp at hi)
+  have hpf := run_probeFollowed orc steps w (by rw [hw]; intro i hi; simp at hi)
+  rcases run_good orc steps w (by rw [hw]; rfl) with ⟨hr, hl⟩ | ⟨_, hc⟩
+  · left; exact ⟨hr, run_restores_cwd .., hl⟩
+  · right
+    have hci := (List.all_eq_true.mp hc) _ (List.getElem_mem hi)
+    have hres : ((run orc steps w).2.calls[i]).result ≠ .ok := by rw [hfa i hi]; exact hfail
+    have hh : ((run orc steps w).2.calls[i]).handled = true := by
+      simp only [Call.clean, Bool.or_eq_true, decide_eq_true_eq] at hci
+      rcases hci with h | h
+      · exact absurd h hres
+      · exact h
+    obtain ⟨h', hnh, htool⟩ := hpf i hi hh
+    refine ⟨hh, h', ?_, htool⟩
+    have hc1 := (List.all_eq_true.mp hc) _ (List.getElem_mem h')
+    simp only [Call.clean, hnh, Bool.or_false, decide_eq_true_eq] at hc1
+    exact hc1
+
+/-- **Every set of faults, every unhandled failing invocation.** Under *any* oracle: if logged invocation `k` has a failing
+    verdict and is not a probe handled by its caller, then the outcome is code 130, the working directory is restored and `k` is
+    the last invocation made — so of several faults it is the *first* unhandled one that ends the operation
+    (`fault_at_any_point` is the one-fault instance). -/
+theorem first_unhandled_fault_ends (orc : Oracle) (steps : List Step) (k : Nat) (w : World) (hw : w.calls = [])
+    (hk : k < (run orc steps w).2.calls.length)
+    (hbad : orc k ((run orc steps w).2.calls[k]).tool ≠ .ok)
+    (hh : ((run orc steps w).2.calls[k]).handled = false) :
+    (run orc steps w).1 = .err .external ∧ (run orc steps w).2.cwd = w.cwd
+      ∧ (run orc steps w).2.calls.length = k + 1 := by
+  have hfa := run_faithful orc steps w (by rw [hw]; intro i hi; simp at hi) k hk
+  have hres : ((run orc steps w).2.calls[k]).result ≠ .ok := by rw [hfa]; exact hbad
+  have hunclean : ((run orc steps w).2.calls[k]).clean = false := by
+    simp only [Call.clean, hh, Bool.or_false]
+    exact decide_eq_false hres
+  have hnc : clean (run orc steps w).2.calls = false := by
+    simp only [clean, List.all_eq_false]
+    exact ⟨_, List.getElem_mem hk, by simp [hunclean]⟩
+  obtain ⟨hr, pre, c, hcalls, hpre, _⟩ := run_fault_reported orc steps w (by rw [hw]; rfl) hnc
+  refine ⟨hr, run_restores_cwd .., ?_⟩
+  rw [hcalls, List.length_append, List.length_singleton]
+  by_cases hlt : k < pre.length
+  · exfalso
+    have : (run orc steps w).2.calls[k] = pre[k] := by
+      simp only [hcalls]; exact List.getElem_append_left hlt
+    rw [this] at hunclean
+    have := (List.all_eq_true.mp hpre) _ (List.getElem_mem hlt)
+    rw [hunclean] at this; cases this
+  · have : k < pre.length + 1 := by rw [hcalls] at hk; simpa using hk
+    omega
+
+/-- **A probe and its fallback both fail** (pairs of faults): if two consecutive logged invocations of the same tool both get a
+    failing verdict, the operation ends with code 130 and the working directory restored — whatever else the oracle says, and
+    whether or not the first of them is a handled probe. -/
+theorem probe_and_fallback_fail_reported (orc : Oracle) (steps : List Step) (w : World) (hw : w.calls = [])
+    (i : Nat) (hi : i + 1 < (run orc steps w).2.calls.length)
+    (hf1 : orc i ((run orc steps w).2.calls[i]'(by omega)).tool ≠ .ok)
+    (hf2 : orc (i + 1) ((run orc steps w).2.calls[i + 1]).tool ≠ .ok) :
+    (run orc steps w).1 = .err .external ∧ (run orc steps w).2.cwd = w.cwd := by
+  have hfa := run_faithful orc steps w (by rw [hw]; intro i hi; simp at hi)
+  rcases faults_reported_or_recovered orc steps w hw i (by omega) hf1 with ⟨hr, hcwd, _⟩ | ⟨_, h', hok, _⟩
+  · exact ⟨hr, hcwd⟩
+  · exfalso
+    rw [hfa (i + 1) hi] at hok
+    exact hf2 hok
+
+/-- the oracle of a fault set says "non-zero" exactly at the listed indices (no tools disappearing) -/
+theorem faultsAt_nonzero (ks : List Nat) (i : Nat) (t : String) : faultsAt ks none i t ≠ .ok ↔ i ∈ ks := by
+  simp only [faultsAt]
+  by_cases h : ks.contains i
+  · simp [List.contains_iff_mem.mp h]
+  · have : i ∉ ks := fun hm => h (List.contains_iff_mem.mpr hm)
+    simp [this]
+
+/-- a single fault is the one-element fault set -/
+theorem faultsAt_single (k : Nat) : faultsAt [k] none = faultAt k .nonzero := by
+  funext i t
+  simp only [faultsAt, faultAt, List.contains_cons, List.contains_nil, Bool.or_false]
+  by_cases h : i = k <;> simp [h]
+
 /-! ### the whole `package` operation -/
 
 /-- no step of the pipeline is a probe whose failure is caught (`try … except ExternalCommandException`) -/
@@ -985,6 +1236,42 @@ theorem packageOp_fault_spec (c : Cfg) (k : Nat) (f : ToolResult) (hf : f ≠ .o
     simp only at hq
     exact ⟨hb.mp hq, by simp⟩
 
+/-- **C20 for the whole `package` operation under any set of faults**: the statement of `packageOp_fault_spec` for an
+    arbitrary oracle (several invocations failing, in any mixture of missing / non-zero): whenever some logged invocation `k`
+    has a failing verdict, the outcome is 130, the working directory is restored, `k` is the last invocation, and the package
+    output directory holds nothing that was not there before (and nothing at all once `build` is through). -/
+theorem packageOp_faults_spec (c : Cfg) (orc : Oracle) (k : Nat) (w : World) (hw : w.calls = [])
+    (hk : k < (run orc (packageOp c) w).2.calls.length)
+    (hbad : orc k ((run orc (packageOp c) w).2.calls[k]).tool ≠ .ok) :
+    (run orc (packageOp c) w).1 = .err .external
+    ∧ (run orc (packageOp c) w).2.cwd = w.cwd
+    ∧ (run orc (packageOp c) w).2.calls.length = k + 1
+    ∧ ∀ q ∈ (run orc (packageOp c) w).2.files, under (resolve w.cwd c.pkgOut) q = true →
+        q ∈ w.files ∧ (run orc (buildAll c) w).1 ≠ .ok := by
+  have hun := run_unhandled orc (packageOp c) w (packageOp_noProbe c) (by rw [hw]; rfl)
+  have hh : ((run orc (packageOp c) w).2.calls[k]).handled = false := by
+    have := (List.all_eq_true.mp hun) _ (List.getElem_mem hk)
+    simpa using this
+  obtain ⟨h1, h2, h3⟩ := first_unhandled_fault_ends orc (packageOp c) k w hw hk hbad hh
+  refine ⟨h1, h2, h3, ?_⟩
+  intro q hq hu
+  have hne : (run orc (packageOp c) w).1 ≠ .ok := by rw [h1]; simp
+  unfold packageOp at hq hne
+  rw [run_append] at hq hne
+  have hb := run_away orc (buildAll c) w (buildAll_away c w.cwd) hu
+  have hbc := run_restores_cwd orc (buildAll c) w
+  generalize run orc (buildAll c) w = rb at hq hne hb hbc
+  obtain ⟨rr, wb⟩ := rb
+  cases rr with
+  | ok =>
+    exfalso
+    simp only at hq hne hbc
+    have := package_failure_no_artifact c orc wb hne q hq
+    rw [hbc, hu] at this; cases this
+  | err e =>
+    simp only at hq
+    exact ⟨hb.mp hq, by simp⟩
+
 /-! ### non-vacuity (compiled evaluation: tests that the hypotheses are met by concrete runs, not proofs) -/
 
 def cfgAar : Cfg := {
@@ -1020,6 +1307,28 @@ def outFiles (c : Cfg) (w : World) : List Path := w.files.filter (under (resolve
 #guard (let w1 := (run allOk (packageOp cfgNuget) w0).2
         let r := run (faultAt 1 .nonzero) (publishSteps cfgNuget) { w1 with calls := [] }
         r.1 == .err .external && r.2.calls.length == 2 && r.2.cwd == ["proj"])
+-- sets of faults on nuget publish: probe and fallback both fail -> 130 after two invocations, `push` never runs;
+-- probe fails, fallback succeeds, `push` fails -> 130 after three; the hypotheses of `probe_and_fallback_fail_reported` /
+-- `faults_reported_or_recovered` / `first_unhandled_fault_ends` are met
+#guard (let w1 := (run allOk (packageOp cfgNuget) w0).2
+        let r := run (faultsAt [0, 1] none) (publishSteps cfgNuget) { w1 with calls := [] }
+        r.1 == .err .external && (r.2.calls.map (·.sig)) == [["sources", "update"], ["sources", "add"]] && r.2.cwd == ["proj"]
+        && (r.2.calls.map (·.handled)) == [true, false] && (r.2.calls.map (·.tool)) == ["nuget", "nuget"])
+#guard (let w1 := (run allOk (packageOp cfgNuget) w0).2
+        let r := run (faultsAt [0, 2] none) (publishSteps cfgNuget) { w1 with calls := [] }
+        r.1 == .err .external && (r.2.calls.map (·.sig)) == [["sources", "update"], ["sources", "add"], ["push"]]
+        && (r.2.calls.map (·.result)) == [.nonzero, .ok, .nonzero])
+#guard (let w1 := (run allOk (packageOp cfgNuget) w0).2
+        let r := run (faultsAt [0] (some 1)) (publishSteps cfgNuget) { w1 with calls := [] }
+        r.1 == .err .external && (r.2.calls.map (·.result)) == [.nonzero, .missing])
+-- several faults while packaging: the first one ends the operation
+#guard (let r := run (faultsAt [1, 2] none) (packageOp cfgAar) w0
+        r.1 == .err .external && r.2.calls.length == 2 && outFiles cfgAar r.2 == [["proj", "dist", "release", "package", "aar", "T.aar"]])
+-- which of several failing points has to be reported
+#guard (effectiveFault [⟨0, true, 1, "publish"⟩, ⟨1, false, 2, "publish"⟩]).map (·.k) == some 1
+#guard (effectiveFault [⟨0, true, 1, "publish"⟩]).map (·.k) == some 0
+#guard (effectiveFault [⟨0, true, 1, "publish"⟩, ⟨2, false, 3, "publish"⟩, ⟨3, false, 4, "publish"⟩]).map (·.k) == some 2
+#guard (effectiveFault [⟨1, false, 2, "build"⟩, ⟨0, true, 1, "publish"⟩]).map (·.k) == some 1
 -- the pinned `execute`: after a non-zero exit the process sits in the package build directory
 #guard (executePinned ["elsewhere"] (faultAt 0 .nonzero) "gradlew" [] (some (.rel ["b"])) [] { w0 with dirs := [["proj", "b"]] }).2.cwd == ["proj", "b"]
 
